@@ -94,6 +94,7 @@ LIBRARY = {
     "IDLE": (0, 1, 0), "PHASEGATE": (0, 1, 1),           # legacy names resolved by Gate.get_compact_qobj (not in GATE_CLASS_MAP)
 }
 LEGACY = {"IDLE", "PHASEGATE"}
+TARGETS_ONLY = ["TOFFOLI", "FREDKIN"]
 ALIASES = {"iSWAP": "ISWAP", "SWAPalpha": "SWAPALPHA"}
 # other spellings with the same operator (`aliasOf` of lean/QipVerif/Lemmas/SchedFull.lean); compared on the real library
 SAME_OPERATOR = {"H": "SNOT", "CX": "CNOT", "iSWAP": "ISWAP", "SWAPalpha": "SWAPALPHA"}
@@ -165,6 +166,12 @@ def placements(N, names=None):
             tgt = itertools.permutations(rest, nt) if name in ORDERED_TARGETS else itertools.combinations(rest, nt)
             for ts in tgt:
                 out.append((name, list(ts), list(cs)))
+    # the targets-only form in which the library's classes build the three-qubit gates: TOFFOLI([c1, c2, t]),
+    # FREDKIN([c, t1, t2]) -- all qubits in `targets`, no controls, the roles encoded in the ORDER of the list
+    for name in TARGETS_ONLY:
+        if (names is None or name in names) and N >= 3:
+            for ts in itertools.permutations(range(N), 3):
+                out.append((name, list(ts), []))
     return out
 
 
@@ -303,6 +310,20 @@ def regenerate():
 def sc_flag(name):
     w = self_commuting_names()
     return 1 if (w is None or name in w) else 0
+
+
+def len_bound():
+    """`k` when the same-name part of the tree's commutation_rules refuses gates with more than k targets (the repair of
+    the targets-only three-qubit gates, fixes/C05-2.patch), else None -- read with `ast` (py/translate/sched.py)"""
+    from translate import sched
+    return sched.info().get("len_bound")
+
+
+def repeat_cycles_ok():
+    """the repeat_num loop of the tree's Scheduler.schedule measures a returned cycles LIST by its length (fixes/C05-3.patch);
+    without it `return_cycles_list=True, repeat_num>0` raises TypeError"""
+    from translate import sched
+    return bool(sched.info().get("repeat_cycles_ok"))
 
 
 def enc_ins(name, ts, cs, dur):
@@ -604,6 +625,19 @@ def known_class_pair(specs, N):
     Returns the first such pair (i, j) or None.  On a tree that carries the repair (`_SELF_COMMUTING_GATES`
     exists) nothing is excluded: a declared-commuting pair that does not commute is then a violation."""
     if self_commuting_names() is not None:
+        if len_bound() is not None:
+            return None
+        # tree without the guard on gates given by many targets: the class of the second finding -- two same-name gates of the
+        # set WITHOUT controls and with more than two targets whose sorted target lists coincide but which do not commute
+        # (TOFFOLI([0,1,2]) / TOFFOLI([0,2,1])); the rule sees equal targets because Instruction sorts the list
+        for i in range(len(specs)):
+            for j in range(i + 1, len(specs)):
+                a, b = specs[i], specs[j]
+                if a[0] == b[0] and sc_flag(a[0]) and not a[2] and not b[2] and len(a[1]) > 2 \
+                        and sorted(a[1]) == sorted(b[1]):
+                    A, B = gate_matrix(a, N), gate_matrix(b, N)
+                    if np.abs(A @ B - B @ A).max() > 1e-9:
+                        return (i, j)
         return None
     for i in range(len(specs)):
         for j in range(i + 1, len(specs)):
@@ -641,5 +675,8 @@ def documented_rule(a, b):
             return tx == ty
         if x == "CNOT" and y in ("Z", "RZ"):
             return cx == ty
+        return False
+    lb = len_bound()
+    if lb is not None and (len(ta) > lb or len(tb) > lb):
         return False
     return bool(sc_flag(na)) and (bool(ca and ca == cb) or ta == tb)
